@@ -21,7 +21,7 @@ Faults == {"none", "bad-greeting", "unknown-module", "bad-args", "early-close"}
 (* the module table around the module under test: alone; next to a writable and another read-only module;    *)
 (* next to a writable module whose PATH is a string prefix of this module's path; below a writable module's   *)
 (* directory; above a writable module's directory.  Only the module's OWN flag decides (Gate).                *)
-Layouts == {"alone", "sibling", "prefix", "nested", "parent"}
+Layouts == {"alone", "sibling", "prefix", "nested", "parent", "same", "same-slash"}     \* same: a writable module exports the SAME directory under another name
 (* how the client spells its argument lines: as a stock client does; WITHOUT the "--server" line (a hand-written *)
 (* client: no "--sender" still means the daemon receives); with long option names; with repeated lines.        *)
 (* The gate does not depend on the spelling.                                                                   *)
